@@ -98,11 +98,19 @@ func generate(r *lib.Rng, tier string, i int) *Case {
 		o = gg.Thorough()
 	}
 	o.FailProb = 4
-	switch x := r.Intn(24); {
+	famLimit := 8
+	if tier == "thorough" {
+		famLimit = 16
+	}
+	switch x := r.Intn(30); {
 	case x < 4:
 		return &Case{Chan: genChan(r, tier)}
+	case x >= 27:
+		return &Case{Family: genFamily(r, o, true, famLimit)}
+	case x >= 24:
+		return &Case{Graph: genX(r, x > 24, o.MaxNodes)}
 	case x >= 22:
-		return &Case{Family: genFamily(r, o)}
+		return &Case{Family: genFamily(r, o, false, famLimit)}
 	case x >= 20:
 		// a control cycle (or, one time in four, a cycle closed by a data-only edge, which validateDAG does not see)
 		var c *gg.Case
